@@ -148,6 +148,20 @@ pub fn build(rest: &str) -> String {
     };
     let mut out = vec![];
     for t in toks {
+        // `continue:<slack>`: finish the module, raise its header bound by <slack> (a bound may be loose: ids reserved but not yet
+        // defined, modules of other tools) and continue building from it with `Builder::new_from_module`
+        if let Some(sl) = t.strip_prefix("continue:") {
+            let slack: u32 = match sl.parse() {
+                Ok(v) => v,
+                Err(_) => return "bad-request".to_string(),
+            };
+            let mut m = b.module();
+            let h = m.header.as_mut().unwrap();
+            h.bound = h.bound.wrapping_add(slack);
+            out.push(format!("continued:{}", h.bound));
+            b = Builder::new_from_module(m);
+            continue;
+        }
         let parts: Vec<&str> = t.split('/').collect();
         let before = show_module(b.module_ref());
         let r = match call_hand(&mut b, parts[0], &parts[1..]) {
